@@ -156,13 +156,15 @@ Section C08.
   Theorem C08_reject_threshold_below_minimum : forall now d t,
     t_threshold t < minimum_t (len (t_joining t) + len (t_remaining t)) -> vp now d (Some t) <> None.
   Proof. exact (reject_threshold_below_minimum joiner_ok). Qed.
-  (* the membership and genesis rules are applied by the code only when the base state is not Fresh *)
+  (* the membership and genesis rules are applied by the code only when the base state is not Fresh;
+     members are identified by address AND key (has_addr_key), so a substituted key counts as an
+     invented / dropped member *)
   Theorem C08_reject_dropped_member : forall now d t g n, st_state d <> Fresh -> t_epoch t <> 1 ->
-    st_final_group d = Some g -> In n (g_nodes g) -> has_addr (t_remaining t ++ t_leaving t) (p_addr n) = false ->
+    st_final_group d = Some g -> In n (g_nodes g) -> has_addr_key (t_remaining t ++ t_leaving t) n = false ->
     vp now d (Some t) <> None.
   Proof. exact (reject_dropped_member joiner_ok). Qed.
   Theorem C08_reject_invented_member : forall now d t g n, st_state d <> Fresh -> t_epoch t <> 1 ->
-    st_final_group d = Some g -> In n (t_remaining t ++ t_leaving t) -> has_addr (g_nodes g) (p_addr n) = false ->
+    st_final_group d = Some g -> In n (t_remaining t ++ t_leaving t) -> has_addr_key (g_nodes g) n = false ->
     vp now d (Some t) <> None.
   Proof. exact (reject_invented_member joiner_ok). Qed.
   Theorem C08_reject_genesis_time_change : forall now d t, st_state d <> Fresh -> t_epoch t <> 1 ->
@@ -193,14 +195,18 @@ Section C08.
     fst (command_step joiner_ok key_ok me B now s c) = s.
   Proof. intros; eapply reshare_command_refused; eassumption. Qed.
 
-  (* F13b: a base state that is not Fresh and has no FinalGroup (Left reached from Proposed) makes
-     validateReshareForRemainers dereference nil: the model's outcome is EPanic *)
-  Theorem C08_left_panics : forall now d t,
+  (* F13b (fixed): a base state that is not Fresh and has no FinalGroup (Left reached from Proposed)
+     refuses every reshare proposal with ErrMissingPreviousGroup instead of dereferencing nil *)
+  Theorem C08_reject_no_previous_group : forall now d t,
+    st_state d <> Fresh -> st_final_group d = None -> t_epoch t <> 1 -> vp now d (Some t) <> None.
+  Proof. exact (left_state_refuses joiner_ok). Qed.
+
+  Theorem C08_left_state_error : forall now d t,
     st_state d <> Fresh -> st_final_group d = None -> t_epoch t <> 1 ->
     validate_for_all_dkgs joiner_ok now d (Some t) = None -> validate_reshare_terms d t = None ->
     unix (t_genesis_time t) = unix (st_genesis_time d) -> t_genesis_seed t = st_genesis_seed d ->
-    vp now d (Some t) = Some EPanic.
-  Proof. exact (left_state_panics joiner_ok). Qed.
+    vp now d (Some t) = Some EMissingPreviousGroup.
+  Proof. exact (left_state_error joiner_ok). Qed.
 End C08.
 
 Print Assumptions C08_legal.
@@ -233,7 +239,8 @@ Print Assumptions C08_reject_genesis_seed_change.
 Print Assumptions C08_reject_packet.
 Print Assumptions C08_reject_no_leader.
 Print Assumptions C08_reject_command.
-Print Assumptions C08_left_panics.
+Print Assumptions C08_reject_no_previous_group.
+Print Assumptions C08_left_state_error.
 
 (* ---------- concrete witnesses (non-vacuity, and the refuted full statement) ---------- *)
 Definition w_sch : bytes := hd [] known_schemes.
@@ -303,14 +310,15 @@ Proof.
   - vm_compute. reflexivity.
 Qed.
 
-(* non-vacuity of the Left panic: Proposed (leaving) -> Execute packet -> Left -> next proposal *)
+(* regression witness of the former Left panic: Proposed (leaving) -> Execute packet -> Left -> the
+   next proposal is refused with an error and the store is unchanged *)
 Definition w_terms_leaving (epoch : Z) : terms :=
   mkT w_B 1 epoch 1000 (Some w_x) 5 30 w_sch 0 [9] [] [w_x] [w_me].
-Example C08_left_panics_witness :
+Example C08_left_state_witness :
   let h := [w_pkt (PProposal (w_terms_leaving 2)) 4; w_pkt (PExecute 0) 5; w_pkt (PProposal (w_terms_leaving 3)) 6] in
   map (fun s => st_state (get_current w_B s)) (trace all_ok_j all_ok_k all_ok_v w_me w_B init_store h) = [Proposed; Left; Left]
   /\ snd (w_step (w_run init_store [w_pkt (PProposal (w_terms_leaving 2)) 4; w_pkt (PExecute 0) 5])
-                 (w_pkt (PProposal (w_terms_leaving 3)) 6)) = Rej EPanic.
+                 (w_pkt (PProposal (w_terms_leaving 3)) 6)) = Rej EMissingPreviousGroup.
 Proof. vm_compute. split; reflexivity. Qed.
 
 (* non-vacuity of the main theorems: genesis by x with me joining, join, execute, completion; a
